@@ -28,12 +28,12 @@ def conditions(tier):
     import pipe
     import h_c07 as H
     quick = tier == 'quick'
-    T = 150 if quick else 1500
+    T = 220 if quick else 1500
     NT = pipe.N_TYPES
     NU = len(pipe.USER_TYPES)
     names = pipe.CALLABLE_KINDS
     conds = []
-    for ck in range(5):
+    for ck in ((0, 2, 3, 4) if quick else range(5)):
         for pos in (0, 1, 2):
             sym = [('tkind', 'int'), ('transfer', 'int'), ('direction', 'int'), ('nullable', 'bool'), ('optional', 'bool')]
             pre = ['0 <= tkind <= %d' % NT, '0 <= transfer <= 4']
@@ -49,8 +49,8 @@ def conditions(tier):
                                  name='values[%s,pos=%d]' % (names[ck], pos),
                                  bounds='one value of each of %d type kinds (and varargs) x transfer x direction x nullable x '
                                         'optional%s' % (NT, '' if quick else ' x not nullable x skip x skip on the callable')))
-    for ck in ((0, 3) if quick else range(5)):
-        for pos in ((0, 1, 2) if (not quick or ck == 0) else (1,)):
+    for ck in ((0,) if quick else range(5)):
+        for pos in (0, 1, 2):
             for tov in ((0, 1, 13) if quick else (0, 1, 4, 8, 13)):
                 sym = [('tkind', 'int'), ('length', 'int'), ('fixed', 'int'), ('zt', 'int'), ('elt', 'int')]
                 pre = ['0 <= tkind < %d' % NT, '0 <= length <= 2', '0 <= zt <= 4']
@@ -80,7 +80,7 @@ def conditions(tier):
                          finding_classifier=_classify))
     for ck, order in [(c, o) for c in ((0, 3) if quick else range(5)) for o in (0, 1, 2)]:
         sym = [('tkind', 'int'), ('scope', 'int'), ('closure', 'int'), ('destroy', 'int')]
-        pre = ['0 <= tkind < %d' % NT, '0 <= scope <= 4']
+        pre = ['0 <= tkind < %d' % NT, 'scope in (0, 1, 3)' if quick else '0 <= scope <= 4']
         pre += ['closure in (0, 1, 2, 5)', 'destroy in (0, 3, 5)'] if quick else ['0 <= closure <= 5', '0 <= destroy <= 5']
         conds.append(ch.Cond('h_c07', 'callbacks', sym, pre=pre, fixed=dict(ckind=ck, order=order), timeout=T,
                              name='callbacks[%s,order=%d]' % (names[ck], order),
@@ -90,7 +90,7 @@ def conditions(tier):
         pre = ['0 <= doc < %d' % len(H.TEXTS), '0 <= since <= 2', '0 <= deprecated <= 2', '0 <= attrs <= 3']
         fx = dict(target=tg)
         if quick:
-            pre = ['doc in (0, 2, 3, 5)', '0 <= since <= 2', '0 <= deprecated <= 2', 'attrs in (0, 2, 3)',
+            pre = ['doc in (0, 2, 5)', '0 <= since <= 2', 'deprecated in (0, 1)', 'attrs in (0, 2, 3)',
                    'since_doc in (0, 2)', 'dep_doc in (0, 3)']
             fx.update(stability=1, skip=False)
             sym = [('doc', 'int'), ('since', 'int'), ('deprecated', 'int'), ('attrs', 'int'), ('since_doc', 'int'),
